@@ -3,9 +3,9 @@ import json, os, re, shutil
 from . import common as C
 
 MANIFEST = dict(
-   technique="Lean 4 proof: regex-derivative matcher vs per-format specification automaton, equivalence for ALL strings from a kernel-checked bisimulation certificate; regexes regenerated from the library by a translator on every run; Go parsers and real schemas tied by differential correspondence on single-edit neighbourhoods",
-   text="For IPv4, Hex, E.164, MAC (':' and '-'), Base64, UUID (generic, v4, v6, v7), GUID the theorem c20_<fmt> proves for every byte string that the validator's regular expression (translated from the live regexp object by regexp/syntax on every run) accepts it iff the format's definition (a small step automaton written independently) does; c20_<fmt>_pattern proves the same for the pattern exported to JSON Schema. For CIDRv4, ISO date and ISO date-time (validated by Go parsers) the exported pattern has the same kind of theorem and the parser is tied to the definition by correspondence. If a regex changes, the certificate is recomputed; if it is no longer equivalent the search returns a shortest distinguishing string which is replayed against the real schema. IPv6 / CIDRv6: the definition is the RFC 4291 text form as a step automaton (Fmt.ipv6 / Fmt.cidrv6); c20_ipv6_pattern_partial and c20_cidrv6_pattern_partial prove the exported patterns right on every string without '.' and '%' (certificates over the restricted alphabet), the witness theorems show the three ways they are wrong on the others (zone id, leading zero in the dotted quad, missing dotted-quad shapes; open findings, pattern text pinned by a test); the validators (netip) are modelled by the definitions. accepts_iff_lang proves the derivative matcher recognises the regular language; with the concatenation lemma every IsoDateTime(options) option set (28) has its all-strings theorem c20_dto_* (date certificate once + a small tail certificate each). c20_isodate proves the transcription of time.Parse(\"2006-01-02\") equal to the calendar-date definition for all strings; c20_uuidp4/6/7 cover UUID(\"vN\") (two checks, allOf of two patterns).",
-   note="Trusted: Lean kernel; axioms propext/Classical.choice/Quot.sound only; the translator (regexp/syntax AST -> Lean term; validated by comparing Re.accepts with Go regexp on every generated case); the specification automata in Model/FormatSpec.lean as the reading of the documented formats; Go regexp semantics as the reading of a JSON-Schema pattern. Parser-based validators (netip.ParseAddr/ParsePrefix, time.Parse) are modelled by hand transcription (netip: by the definition itself) validated on generated cases and tied by a go/ast structure fingerprint of the validator functions; time.Parse(RFC3339) has no all-strings theorem. IPv6 family on strings with '.' or '%': two independent readings of RFC 4291 (automaton and list-based) vs the library on generated cases.",
+   technique="Lean 4 proof: regex-derivative matcher vs per-format specification automaton, equivalence for ALL strings from a kernel-checked bisimulation certificate; regexes regenerated from the library by a translator on every run; the Go parsers behind the validators (time.Parse layouts, netip.ParsePrefix/ParseAddr/parseIPv4Fields/parseIPv6, strconv.Atoi) transcribed from the Go source and proved equal to the definitions for all strings; real schemas tied by differential correspondence on single-edit neighbourhoods",
+   text="For IPv4, Hex, E.164, MAC (':' '-' '.'), Base64, UUID (generic, v4, v6, v7, UUID(\"vN\")), GUID the theorem c20_<fmt> proves for every byte string that the validator's regular expression (translated from the live regexp object by regexp/syntax on every run) accepts it iff the format's definition (a small step automaton written independently) does; c20_<fmt>_pattern proves the same for the pattern exported to JSON Schema. Parser-validated formats: c20_isodate (time.Parse(\"2006-01-02\") transcription = calendar dates), c20_isodatetime (guard pattern AND time.Parse(RFC3339) transcription = RFC 3339), c20_base64url (pattern AND length rule = RFC 4648 s.5), c20_cidrv4_netip, c20_ipv6_netip, c20_cidrv6_netip (netip.ParsePrefix / ParseAddr / parseIPv4Fields / parseIPv6 transcribed from the Go source = the definitions) - all for ALL strings; the exported patterns of CIDRv4, ISO date, all 28 IsoDateTime(options) sets and 7 IsoTime(options) sets and the default IsoTime() have full theorems. Partial + witness where the code deviates: the default date-time pattern (seconds optional), the Base64URL pattern (no length rule), the IPv6/CIDRv6 patterns: c20_ipv6_pattern_nozone / c20_cidrv6_pattern_nozone prove them right on every string without '%' outside the excluded region Fmt.ipv6QuadDefect (dotted-quad addresses with a leading-zero octet or an outline of the hex part the pattern does not know), *_partial_all on all strings; the witnesses show the three defect classes (open findings: the pattern text is pinned by two JSON-text comparisons in jsonschema/to_test.go and by nothing else). If a regex changes, the certificate is recomputed; if it is no longer equivalent the search returns a shortest distinguishing string which is replayed against the real schema.",
+   note="Trusted: Lean kernel; axioms propext/Classical.choice/Quot.sound only; the translator (regexp/syntax AST -> Lean term; validated by comparing Re.accepts with Go regexp on every generated case); the specification automata in Model/FormatSpec*.lean as the reading of the documented formats; Go regexp semantics as the reading of a JSON-Schema pattern; the hand transcriptions of the Go standard library parsers (Model/GoParsers.lean, Model/GoNetip.lean: go1.26 time/format.go, net/netip/netip.go, strconv.Atoi) - they are the driver's validator models and are compared with the real functions through schema.Parse on every generated case, and a go/ast structure fingerprint ties the pkg/validate functions that call them. The IPv6 definition has two independent readings (automaton, list-based) cross-checked at run time.",
    design="DESIGN.md §5 C20; notes/C20.md")
 
 MODULES = ["Gozod.Proofs.C20", "Gozod.Proofs.C20DateTime", "Gozod.Proofs.C20Parsers", "Gozod.Proofs.C20Rfc3339", "Gozod.Proofs.C20V6Dot", "Gozod.Proofs.C20Base64URL", "Gozod.Proofs.C20Netip", "Gozod.Proofs.C20IsoTime", "Gozod.Proofs.C20Netip6"]
@@ -244,7 +244,7 @@ def run(res):
     res.assumptions += [
         "a JSON-Schema pattern is read with Go regexp semantics ($ = end of text); all C20 patterns are ASCII classes, anchored",
         "Fmt.* automata are the reading of the documented formats (RFC 4648 padding, RFC 3339 seconds mandatory, no leading zeros in octets/prefix lengths)",
-        "IPv6/CIDRv6: the all-strings theorems cover the strings without '.' and '%'; elsewhere RFC 4291 recognisers (two readings) vs the library on generated cases, with the listed open pattern findings",
-        "netip.ParseAddr/ParsePrefix accept the RFC 4291 / dotted-quad text forms and canonical prefix lengths (goIPv6, goCIDRv4/6 are the definitions themselves; checked on every generated case)",
+        "IPv6/CIDRv6 patterns: the all-strings theorems exclude the region Fmt.*QuadDefect and the '%'-strings the pattern takes; there RFC 4291 recognisers (two readings) vs the library on generated cases, with the listed open pattern findings",
+        "Model/GoNetip.lean, Model/GoParsers.lean transcribe go1.26 net/netip, time.Parse layouts and strconv.Atoi faithfully (proved equal to the definitions for all strings; compared with the real functions on every generated case)",
     ]
     return res.finish()
